@@ -880,6 +880,7 @@ func TestC02(t *testing.T) {
 			"or one sequential history over several names; non-trivial = a timed script in which the job's time or a run/cancel/ctx call "+
 			"falls inside the script, or a history with a refused duplicate, a successful RunJob and a re-used name; distinct by input text")
 	col.ShardSize = 60
+	col.Preamble = "From Coq Require Import String."
 	n := EnvInt("VERIF_N", 300)
 	tier := os.Getenv("VERIF_TIER")
 	tieReps, freeReps := 50, 2
@@ -987,6 +988,21 @@ func TestC02(t *testing.T) {
 				t.Fatalf("the harness process died on more than 40 inputs; last: %s", msg)
 			}
 		}
+	}
+	// the statement order of the three lock-protected sections, from the source
+	sk, skErr := skeletons()
+	for _, fn := range []string{"runJob", "CancelJob", "finaliseJob"} {
+		toks := sk[fn]
+		if skErr != "" {
+			toks = []string{"error: " + skErr}
+		}
+		items := make([]string, 0, len(toks))
+		for _, tk := range toks {
+			items = append(items, Str(tk))
+		}
+		id := col.NextID()
+		col.Add(Case{Term: Record("c_id", N(id), "c_body", App("Skeleton", Str(fn), List(items))), Key: "skeleton:" + fn,
+			Nontrivial: false, Tags: []string{"skeleton"}, Sample: map[string]any{"input": Input{Tags: []string{"skeleton:" + fn}}, "observed": toks}})
 	}
 	bubbles, hungObs := 0, 0
 	for i, w := range work {
